@@ -199,6 +199,10 @@ func FieldValue(t *rapid.T, label string) string {
 		// value in a chosen CBOR length class
 		n := rapid.SampledFrom([]int{22, 23, 24, 25, 254, 255, 256, 257}).Draw(t, label+"-len")
 		return strings.Repeat("v", n)
+	case 4:
+		if rapid.IntRange(0, 2).Draw(t, label+"-impl") == 0 {
+			return strings.Repeat("w", ImplLen(t, label+"-impllen", 4097))
+		}
 	}
 	return rapid.StringMatching(`[a-zA-Z0-9=;/. _\-]{1,24}`).Draw(t, label)
 }
@@ -284,6 +288,19 @@ func LenNear(t *rapid.T, label string, rs, maxLen int) int {
 	}
 	if n > maxLen {
 		n = maxLen
+	}
+	return n
+}
+
+// ImplLens: lengths around powers of two. The format has no boundary there, but implementations
+// do (inline buffers, chunk sizes, pool classes): 64, 128, 512, 4 KiB ...
+var ImplLens = []int{15, 16, 17, 31, 32, 33, 62, 63, 64, 65, 66, 127, 128, 129, 511, 512, 513, 1023, 1024, 1025, 4095, 4096, 4097}
+
+// ImplLen draws one of ImplLens not above max.
+func ImplLen(t *rapid.T, label string, max int) int {
+	n := rapid.SampledFrom(ImplLens).Draw(t, label)
+	if n > max {
+		n = max
 	}
 	return n
 }
